@@ -129,6 +129,13 @@ CLAIMED = {
          'Trusted: Lean kernel, Mathlib, independent exp6/Ad/leg lengths in the harness; np.linalg.pinv is an oracle (inverse of an invertible matrix).',
          'Lean 4 proofs (vector algebra by certificates, HasDerivAt for the length derivative, induction over legs) + differential correspondence + Richardson / equilibrium falsifier on real platforms',
          'DESIGN.md section 5 C11'),
+ 'C20': ('Partial proof: machine-checked theorems (Lean 4) about an exact model of disp / dispa / printTFlist (floats are the rationals their bits denote, \'{:W.Pf}\'.format is exact round-half-even of the decimal expansion): '
+         'the rendered text of a numeric array with 1 to 4 axes contains every element exactly once, in row-major order, for every shape (also empty extents), title, number of decimals and pdims; below 9999 the requested decimals are used unchanged; the integer a field is printed from is within half a unit in the last place of the element. '
+         'The model renders the same objects as the real disp and the strings are compared character for character (arrays, transforms, wrenches, lists of them, mixed and nested lists, opaque objects). '
+         'Never raising, print == return, LaTeX mode and 5-axis arrays are decided on the implementation (a total Lean function cannot state that Python does not raise): labelled sampled.',
+         'Trusted: Lean kernel, Mathlib, object generator/encoder and independent parse-back in the harness; Python str() of shapeless objects is an input; Nat.repr renders digits.',
+         'Lean 4 proofs about an exact rendering model (row-major coverage by induction over chunks, exact rounding bound) + character-exact differential correspondence + totality / parse-back falsifier',
+         'DESIGN.md section 5 C20'),
 }
 NA_REASON = 'check not built yet in this round (work in progress; DESIGN.md section 8 gives the build order)'
 
